@@ -47,6 +47,7 @@ type Config struct {
 	WorkFile     string
 	SliceS       int
 	Serve        bool
+	UnwindViolation bool
 	batch        [][]Decision
 	RawArgs      []string
 	SolverKind   string
@@ -130,6 +131,7 @@ func cmdRun(mode string, args []string) int {
 	fs.BoolVar(&cfg.Trace, "trace", false, "trace instructions")
 	fs.IntVar(&cfg.Par, "par", 1, "explore one entry with this many worker processes")
 	fs.IntVar(&cfg.SliceS, "slice", 25, "(internal) seconds a worker explores before handing back its remaining work")
+	fs.BoolVar(&cfg.UnwindViolation, "unwind-violation", false, "exceeding the unwinding bound is a violation (termination obligations)")
 	fs.BoolVar(&cfg.Serve, "serve", false, "(internal) worker mode: batches of prefixes on stdin, results on stdout")
 	fs.StringVar(&cfg.WorkFile, "work-file", "", "(internal) explore only the decision prefixes listed in this file")
 	fs.IntVar(&cfg.Bound, "bound", 0, "value returned by verifBound() (tier-dependent size bound)")
